@@ -203,6 +203,14 @@ func c16Gen(c *core.Ctx) func(yield func(c16Case) bool) {
 			}
 		}
 		// an expression as a placeholder's default (written in the tag)
+		// defaults that start with a dash (the shell's ${key:-default} form means nothing here: the dash
+		// belongs to the default), alone and doubled
+		for _, s := range []string{"${x:-d}", "${x:-}", "${x:--d}", "${a:-d}", "${m:-d}"} {
+			add(s)
+			add("p", s)
+			add(s, "${b}")
+			add("${a}", s)
+		}
 		for _, s := range []string{"${x:#{1+2}}", "${a:#{1+2}}", "${x:n#{'v'+'w'}}", "${${k}:#{1+2}}"} {
 			add(s)
 			add("p", s)
